@@ -88,15 +88,9 @@ def check_fresh(ctx, out, rule):
         out.inst(rule, 0, 1, note="interpreter factory / script runner not found")
 
 
-def run(ctx, out, tier):
-    res = asyncval.check_once(ctx, out, "C18", NAME, r"check_lua::run_lua_script$", "script run (`run_lua_script`)")
-    runner = None
-    for b in ctx.reachable_bodies():
-        if any(callee_matches(t, r"^mlua::Function::(call_async|call)$") for bi, t in b.calls()):
-            runner = b
-    if runner is not None:
-        # synchronous helpers of the runner (e.g. a function building the ctx table) are looked through
-        runner = ctx.inl(runner, skip=ctx.domain_api, tag="domain", sugar=True)
+def _two_stage(ctx, out, res, runner):
+    """ctx / arguments decided in two stages: inside the runner (against its parameters), then at the
+    task's call of the runner (against the spawn site)."""
     n = 0
     if runner is None:
         out.inst("C18.ctx", 0, 6, note="script runner (call_async) not found")
@@ -204,6 +198,147 @@ def run(ctx, out, tier):
         k += 1
     out.inst("C18.args", k, 4, ["run_lua_script(attrs['check-lua'], file_path, block, block_content(block))"])
 
+
+
+def content_selector(ctx):
+    sel = ctx.facts.body("blockwatch::validators::check_lua::block_content")
+    if sel is None:
+        cands = [b for b in ctx.validator_bodies(NAME) if any(util.const_val(ctx, b, t["args"][1]) == "check-lua-pattern" for bi, t in b.calls() if callee_matches(t, r"HashMap::<K, V, S, A>::get$") and len(t["args"]) > 1)]
+        sel = cands[0] if cands else None
+    return sel
+
+
+def _unified(ctx, out, co, task):
+    """The same obligations on one view: the task's body with the runner it awaits, the runner's helpers
+    and any argument struct taken apart (normalised view with awaited crate-local futures inlined).
+    Whatever the decomposition into functions, what reaches mlua is read off there: `Table::set` with the
+    keys file / line / attrs, the call of the global `validate`, the path handed to the file read."""
+    sel = content_selector(ctx)
+    tv = ctx.inl(task, skip=lambda cb: ctx.domain_api(cb) or (sel is not None and cb.id == sel.id), tag="c18task", sugar=True)
+    if tv is None or tv is task:
+        out.viol("C18.ctx", "C18.ctx|task-view", ctx.where(task), "the task could not be normalised")
+        return
+    # the content selector's result is an origin of its own here (what happens inside it is C18.select's)
+    for bi, t in tv.calls():
+        if sel is not None and (t.get("res") or "") == sel.id:
+            t["opaque_result"] = True
+    tcfg = cfg_of(tv)
+    resolve = asyncval.task_resolver(ctx, co, task)
+    RL = lambda op: resolve(ctx.prov.read_operand(tv, op))      # noqa: E731
+    n = k = 0
+    calls = [(bi, t) for bi, t in tv.calls() if callee_matches(t, r"^mlua::Function::(call_async|call)$") and bi in tcfg.reachable]
+    if len(calls) == 1 and not tcfg.loops_containing(calls[0][0]):
+        n += 1
+    else:
+        out.viol("C18.ctx", "C18.ctx|call-count", ctx.where(tv), "`validate` is called %d time(s) per task (or in a loop); expected exactly once per block" % len(calls))
+    if not calls:
+        out.inst("C18.ctx", n, 7)
+        out.inst("C18.args", k, 4)
+        return
+    fl = ctx.prov.read_operand(tv, calls[0][1]["args"][0])
+    gets = [t for bi, t in tv.calls() if callee_matches(t, r"^mlua::Table::get$")]
+    gnames = [util.const_val(ctx, tv, t["args"][1]) for t in gets]
+    if "validate" in gnames and P.has_call(fl, r"^mlua::Table::get$") and P.has_call(fl, r"^mlua::Lua::globals$"):
+        n += 1
+    else:
+        out.viol("C18.ctx", "C18.ctx|function", ctx.where(tv), "the called function is not the script's global `validate` (globals looked up: %s)" % gnames)
+    sets = [(bi, t) for bi, t in tv.calls() if callee_matches(t, r"^mlua::Table::(set|raw_set)$") and bi in tcfg.reachable]
+    by_key = {}
+    dyn = []
+    for bi, t in sets:
+        kk = util.const_val(ctx, tv, t["args"][1])
+        if isinstance(kk, str):
+            by_key[kk] = (bi, t)
+        else:
+            dyn.append((bi, t))
+    if set(by_key) == {"file", "line", "attrs"}:
+        n += 1
+    else:
+        out.viol("C18.ctx", "C18.ctx|keys", ctx.where(tv), "ctx is given the keys %s; documented: file, line, attrs" % sorted(by_key))
+    if "file" in by_key:
+        labs = RL(by_key["file"][1]["args"][2])
+        if (P.has_call(labs, r"hash_map::Iter<.*Iterator>::next$") or P.has_path(labs, "blocks")) and not P.has_path(labs, "attributes"):
+            n += 1
+            k += 1
+        else:
+            out.viol("C18.ctx", "C18.ctx|file", ctx.where(tv, by_key["file"][1]["span"]), "ctx.file derives from [%s]; expected the key of the file being iterated (root-relative path)" % util.origins_text(labs, 5))
+    if "line" in by_key:
+        labs = RL(by_key["line"][1]["args"][2])
+        if P.has_path(labs, "start_tag_position_range", "start", "line") and not P.has_path(labs, "start_tag_position_range", "end") and not P.has_path(labs, "content_position_range"):
+            n += 1
+        else:
+            out.viol("C18.ctx", "C18.ctx|line", ctx.where(tv, by_key["line"][1]["span"]), "ctx.line derives from [%s]; expected the start tag's line" % util.origins_text(labs, 5))
+    if "attrs" in by_key and dyn:
+        tbl = util.base_local(tv, by_key["attrs"][1]["args"][2])
+        good = False
+        for bi, t in dyn:
+            if util.base_local(tv, t["args"][0]) == tbl and tcfg.loops_containing(bi):
+                kl = ctx.prov.read_operand(tv, t["args"][1])
+                vl = ctx.prov.read_operand(tv, t["args"][2])
+                calls_k = sorted({l[1].split("::")[-1] for l in kl | vl if l[0] == "call" and not re.search(r"Iterator>?::next$|IntoIterator>?::into_iter$|HashMap::<K, V, S, A>::iter$|String::as_str$|Deref>?::deref$|AsRef<str>>::as_ref$|Index<.*>>?::index$", l[1])})
+                it_ok = P.has_path(kl, "attributes") and P.has_path(vl, "attributes")
+                loops = util.loop_of_next(ctx, tv, r"\.attributes\)")
+                chain_ok = any(bi in (util.iter_region(tv, nb) | set(bl)) for h, bl, nb in loops)
+                if it_ok and not calls_k and chain_ok:
+                    good = True
+                else:
+                    out.viol("C18.ctx", "C18.ctx|attrs-content", ctx.where(tv, t["span"]),
+                             "ctx.attrs entries derive from key [%s] / value [%s] (through %s); expected every attribute of the tag, key and value unmodified" % (util.origins_text(kl, 3), util.origins_text(vl, 3), calls_k))
+                    good = True
+        if good:
+            n += 1
+        else:
+            out.viol("C18.ctx", "C18.ctx|attrs", ctx.where(tv), "ctx.attrs is not filled from a loop over all of the block's attributes")
+    elif "attrs" in by_key:
+        out.viol("C18.ctx", "C18.ctx|attrs-empty", ctx.where(tv), "ctx.attrs is never filled")
+    # the arguments of `validate` travel as one tuple `(ctx, content)`: its second component
+    aop = calls[0][1]["args"][1]
+    apl = util.op_place(aop)
+    ad = tv.single_def(apl["l"]) if apl is not None and not apl["p"] else None
+    if ad and ad[0] == "stmt" and ad[3]["rv"]["k"] == "agg" and ad[3]["rv"].get("agg") == "tuple" and len(ad[3]["rv"]["ops"]) == 2:
+        aop = ad[3]["rv"]["ops"][1]
+    al = RL(aop)
+    extra = sorted({l[1].split("::")[-1] for l in al if l[0] == "call" and re.search(r"trim|to_lowercase|to_uppercase|replace|lines|split", l[1])})
+    if sel is not None and P.has_call(al, re.escape(sel.id) + "$") and not extra:
+        n += 1
+        k += 1
+    else:
+        out.viol("C18.ctx", "C18.ctx|content-arg", ctx.where(tv, calls[0][1]["span"]), "the second argument of `validate` derives from [%s] (through %s); expected the selected content, unchanged" % (util.origins_text(al, 5), extra))
+    reads = [(bi, t) for bi, t in tv.calls() if callee_matches(t, r"^std::fs::(read_to_string|read)$|^std::fs::File::open$|^tokio::fs::(read_to_string|read)$") and bi in tcfg.reachable]
+    if len(reads) == 1 and (lambda a: P.has_const(a, NAME) and P.has_path(a, "attributes"))(RL(reads[0][1]["args"][0])):
+        k += 1
+    else:
+        out.viol("C18.args", "C18.args|script", ctx.where(tv), "the script file read by the task is not (only) the one named by the block's `check-lua` attribute (%d file read(s))" % len(reads))
+    k += 1
+    out.inst("C18.ctx", n, 7, ["validate(ctx{file,line,attrs}, content) once (task with the awaited runner inlined)"])
+    out.inst("C18.args", k, 4, ["script <- attrs['check-lua']; file <- the iterated file key; content <- the content selector"])
+
+
+def run(ctx, out, tier):
+    def one_validate_call(task):
+        sel = content_selector(ctx)
+        tv = ctx.inl(task, skip=lambda cb: ctx.domain_api(cb) or (sel is not None and cb.id == sel.id), tag="c18task", sugar=True)
+        tcfg = cfg_of(tv)
+        cs = [bi for bi, t in tv.calls() if callee_matches(t, r"^mlua::Function::(call_async|call)$") and bi in tcfg.reachable]
+        return len(cs) == 1 and not tcfg.loops_containing(cs[0])
+    res = asyncval.check_once(ctx, out, "C18", NAME, r"check_lua::run_lua_script$", "script run (`run_lua_script`)", per_task_alt=one_validate_call)
+    runner = None
+    for b in ctx.reachable_bodies():
+        if any(callee_matches(t, r"^mlua::Function::(call_async|call)$") for bi, t in b.calls()):
+            runner = b
+    if runner is not None:
+        # synchronous helpers of the runner (e.g. a function building the ctx table) are looked through
+        runner = ctx.inl(runner, skip=ctx.domain_api, tag="domain", sugar=True)
+    # ctx / argument obligations: as the code is written (runner, then the task's call of it) or, failing
+    # that, on the task's normalised view with the awaited runner inlined
+    from engine.core import on_any_view
+    stages = [lambda o: _two_stage(ctx, o, res, runner)]
+    if res and len(res) == 3:
+        stages.append(lambda o: _unified(ctx, o, res[0], res[1]))
+    import os
+    if os.environ.get("BW_C18_UNIFIED_ONLY") and len(stages) == 2:
+        stages = stages[1:]         # development aid: exercise the second reading on its own
+    on_any_view(out, stages, lambda fn, o: fn(o))
     # ------------------------------------------------------------------ C18.result
     r = 0
     if runner is not None:
